@@ -12,10 +12,12 @@ CONSTANTS MaxN          \* maximal number of elements of the constraint
 
 NoB == <<0, 0>>         \* "no bound on this side" (re-uses the NaN encoding; never used in arithmetic)
 
-GVals == {Q(-2, 1), Zero, Q(1, 2), One, Q(5, 1)}
+GVals == {Q(-7, 2), Q(-2, 1), Zero, Q(1, 2), One, Q(5, 1)}
 \* per-element bound patterns: <<lower, upper>>
 IneqPats == {<<NoB, NoB>>, <<Zero, NoB>>, <<One, NoB>>, <<NoB, Q(2, 1)>>, <<NoB, Q(3, 1)>>,
-             <<Zero, Q(2, 1)>>, <<One, Q(3, 1)>>}
+             <<Zero, Q(2, 1)>>, <<One, Q(3, 1)>>,
+             <<Q(-3, 1), Q(-1, 1)>>, <<NoB, Q(-1, 1)>>}       \* bounds below zero: a value just below the lower bound is
+                                                              \* closer to it than the upper bound is to zero
 EqVals == {Zero, One}
 \* total (scaler, adder): scaled = (model + adder) * scaler ; ref/ref0 = (3, 1) is scaler 1/2, adder -1
 Scalings == {[s |-> One, a |-> Zero], [s |-> Q(2, 1), a |-> Zero], [s |-> Q(-1, 1), a |-> Zero],
